@@ -18,7 +18,7 @@ Proof. exact recorded_addresses_in_named_pool. Qed.
 (* a successful Assign records exactly the requested addresses, from a pool
    whose selectors admit the service, at most two and of different families *)
 Theorem C02_assign_policy : forall a s r ips a' out,
-  Inv a -> assign a s r ips = (a', ROk out) ->
+  assign a s r ips = (a', ROk out) ->
   exists p, out = ips /\
     get_alloc a' s = Some {| a_pool := p_name p; a_ips := ips; a_ports := r_ports r; a_key := r_key r |} /\
     In p (by_name (s_pools a')) /\ (forall x, In x ips -> in_pool p x = true) /\
@@ -124,10 +124,11 @@ From Verif Require Import Proofs.AllocMonoP Proofs.CtrlStarveP Proofs.CtrlPostP.
 
 (* every postcondition convergeBalancer establishes for the status/annotation it
    produces holds for every Service whenever the reconciler has no pending work *)
-Theorem C02_handler_postconditions_hold_at_quiescence : forall rank (post : pools -> svcobj -> Prop),
-  (forall a s o k v ok, minv a -> converge rank a s o k = CR v ok -> post (s_pools a) (with_status o (cv_status v) (cv_annot v))) ->
+Theorem C02_handler_postconditions_hold_at_quiescence : forall rank (post : pools -> option alloc -> svcobj -> Prop),
+  (forall a s o k v ok, minv a -> converge rank a s o k = CR v ok ->
+     post (s_pools a) (get_alloc (cv_mem v) s) (with_status o (cv_status v) (cv_annot v))) ->
   forall evs w, wrun rank evs world0 = Some w -> quiescent w ->
-  forall s o, aget (w_api w) s = Some o -> post (s_pools (c_mem (w_ctl w))) o.
+  forall s o, aget (w_api w) s = Some o -> post (s_pools (c_mem (w_ctl w))) (get_alloc (c_mem (w_ctl w)) s) o.
 Proof. exact quiescent_post. Qed.
 
 (* a Service that requests specific addresses has exactly those, or none - never
@@ -154,3 +155,89 @@ Theorem C02_status_pool_admits_service_at_quiescence : forall rank evs w s o,
   exists p, In p (by_name (s_pools (c_mem (w_ctl w)))) /\ o_annot o = Some (p_name p) /\
             (forall x, In x (o_status o) -> in_pool p x = true) /\ compatible p (o_req o) = true.
 Proof. exact quiescent_pool_admits. Qed.
+
+(* the best-class half of the specification: the chosen pool offers the best class
+   among the candidates of its list, and an unpinned pool only when no pinned one offers anything *)
+Theorem C02_allocate_spec_best_class : forall a s r pn ips,
+  names_unique (s_pools a) ->
+  allocate_spec a s r (Some (pn, ips)) = true ->
+  exists p, find_pool (s_pools a) pn = Some p /\ classify a s r p <> Nothing /\
+    let pinned := pinned_pools (s_pools a) r in
+    let unp := unpinned_pools (s_pools a) in
+    ((In p pinned /\ classify a s r p = best_class a s r pinned) \/
+     (In p unp /\ best_class a s r pinned = Nothing /\ classify a s r p = best_class a s r unp /\
+      forall q, In q unp -> key_lt (prio_key q) (prio_key p) = true -> classify a s r q <> classify a s r p)).
+Proof. exact allocate_spec_best_class. Qed.
+
+(* a Service that requests a pool has an address of that pool (the annotation names
+   it) or none - for configurations with uniquely named, pairwise disjoint pools (C08) *)
+Theorem C02_requested_pool_at_quiescence : forall rank evs w s o wp,
+  wrun rank evs world0 = Some w -> quiescent w -> aget (w_api w) s = Some o ->
+  names_unique (s_pools (c_mem (w_ctl w))) -> pools_disjoint (by_name (s_pools (c_mem (w_ctl w)))) ->
+  o_want_pool o = Some wp -> o_want o <> WInvalid -> o_status o = [] \/ o_annot o = Some wp.
+Proof. exact quiescent_requested_pool. Qed.
+
+(* ---- non-vacuity of the quiescence theorems, and necessity of their exceptions ---- *)
+Local Open Scope N_scope.
+Definition q_v6 : ip := V6 334965455017026962486023716784190783488.
+Definition q_v4 : ip := V4 167772160.
+Definition q_pool (n : poolid) : pool :=
+  {| p_name := n; p_cidrs := [ {| pfam := F4; pbase := 167772160; plen := 30 |}; {| pfam := F6; pbase := 334965455017026962486023716784190783488; plen := 128 |} ];
+     p_avoid := false; p_auto := true; p_pin := None |}.
+Definition q_pools (n : poolid) : pools := {| by_name := [q_pool n]; by_ns := []; by_sel := [] |}.
+Definition q_req (f : sfam) (pol : policy) (first6 : bool) (port : N) : req :=
+  {| r_ns := 1; r_labels := []; r_fam := f; r_pol := pol; r_first6 := first6;
+     r_ports := [ {| proto := 0; pnum := port |} ]; r_key := {| sharing := 0; backend := 0 |} |}.
+Definition q_obj (r : req) (w : want) (wp : option poolid) : svcobj :=
+  {| o_lb := true; o_req := r; o_cluster_ok := true; o_want := w; o_want_pool := wp; o_status := []; o_annot := None |}.
+Definition q_k (c : option (poolid * list ip)) : oracle := {| k_write := true; k_final := c |}.
+Definition q_six := q_obj (q_req S6 Single true 80) WNone None.
+Definition q_dual (w : want) := q_obj (q_req SDual Prefer false 81) w None.
+Definition q_single (w : want) := q_obj (q_req S4 Single false 81) w None.
+
+(* a reachable quiescent world with a Service that requests an address AND a pool and holds exactly that *)
+Definition pos_evs : list ev :=
+  [EPools (q_pools 1); UPut 1 (q_obj (q_req S4 Single false 81) (WIps [q_v4]) (Some 1)); EReload [1] [q_k None]; ESvc 1 (q_k None)].
+Example C02_quiescence_theorems_nonvacuous :
+  exists w o, wrun ip_val pos_evs world0 = Some w /\ quiescent w /\ aget (w_api w) 1 = Some o /\
+    o_want o = WIps [q_v4] /\ o_want_pool o = Some 1 /\ o_status o = [q_v4] /\ o_annot o = Some 1 /\
+    names_unique (s_pools (c_mem (w_ctl w))) /\ pools_disjoint (by_name (s_pools (c_mem (w_ctl w)))).
+Proof.
+  destruct (wrun ip_val pos_evs world0) as [w|] eqn:E; [|vm_compute in E; discriminate].
+  vm_compute in E. injection E as <-. eexists _, _. split; [reflexivity|]. split; [repeat split|].
+  split; [reflexivity|]. repeat (split; [reflexivity|]). split.
+  - unfold names_unique. cbn. repeat constructor. intros [].
+  - intros p q x [<-|[]] [<-|[]] _ _. reflexivity.
+Qed.
+
+(* F22: without the PreferDualStack exception the explicit-request theorem is false of the
+   faithful model: the Service requested 10.0.0.0 only, holds it, and gains the IPv6 address *)
+Definition f22_evs : list ev :=
+  [EPools (q_pools 1); UPut 2 q_six; EReload [2] [q_k (Some (1, [q_v6]))]; ESvc 2 (q_k None);
+   UPut 1 (q_dual WNone); ESvc 1 (q_k (Some (1, [q_v4])));
+   UPut 1 (q_dual (WIps [q_v4])); ESvc 1 (q_k None);
+   UDel 2; ESvc 2 (q_k None); EReload [1] [q_k (Some (1, [q_v4; q_v6]))]].
+Theorem C02_explicit_request_preferdual_refuted :
+  exists w o, wrun ip_val f22_evs world0 = Some w /\ quiescent w /\ aget (w_api w) 1 = Some o /\
+    o_want o = WIps [q_v4] /\ o_status o = [q_v4; q_v6].
+Proof.
+  destruct (wrun ip_val f22_evs world0) as [w|] eqn:E; [|vm_compute in E; discriminate].
+  vm_compute in E. injection E as <-. eexists _, _. split; [reflexivity|]. split; [repeat split|].
+  split; [reflexivity|]. split; reflexivity.
+Qed.
+
+(* F19: without the "request parsable" exception the pool-annotation theorem is false of the
+   faithful model: after the pool was renamed the annotation still names a pool that no longer exists *)
+Definition f19_evs : list ev :=
+  [EPools (q_pools 1); UPut 1 (q_single WNone); EReload [1] [q_k (Some (1, [q_v4]))]; ESvc 1 (q_k None);
+   UPut 1 (q_single WInvalid); ESvc 1 (q_k None);
+   EPools (q_pools 7); EReload [1] [q_k None]].
+Theorem C02_annotation_invalid_request_refuted :
+  exists w o, wrun ip_val f19_evs world0 = Some w /\ quiescent w /\ aget (w_api w) 1 = Some o /\
+    o_want o = WInvalid /\ o_status o = [q_v4] /\ o_annot o = Some 1 /\
+    map p_name (by_name (s_pools (c_mem (w_ctl w)))) = [7].
+Proof.
+  destruct (wrun ip_val f19_evs world0) as [w|] eqn:E; [|vm_compute in E; discriminate].
+  vm_compute in E. injection E as <-. eexists _, _. split; [reflexivity|]. split; [repeat split|].
+  repeat (split; [reflexivity|]). reflexivity.
+Qed.
